@@ -1103,7 +1103,8 @@ def run(ctx):
         "flow-level theorems: global C1 solutions staying in a set where the field is Lipschitz (Mathlib ODE_solution_unique_univ)",
         "np.searchsorted/numba semantics of negative indices are taken from numpy when the python bodies of the compiled drivers are executed",
     ]
-    ctx.notes.append("clauses violated by the current tree are carried as negation-with-witness theorems (*_current_false, *_witness) plus *_iff characterisations; "
-                     "see notes/C10.md for the replacement theorems once notes/C10_fix_{1,2,3}.diff are applied")
+    ctx.notes.append("all clauses are carried at full strength for the switches of the current tree (*_current theorems, re-decided against the regenerated "
+                     "Gen.C10.cfg); *_old_* / *_unguarded theorems document, in the model, the three defects repaired by de81dee, 5667fce, c3c4fba; "
+                     "a regression of a repair flips a switch: the *_current theorem breaks and the numerical search re-finds the concrete input")
     ctx.rule = ("cells = (entry point, integrator/method/order, direction, grid kind [ascending/descending/zero-span/non-monotone/short], "
                 "grid size, controller oracle); distinct by that tuple; non-trivial = the case reaches a step loop or a sign decision")
